@@ -200,3 +200,24 @@ Example msn_example :
           {| h_msn := 1; h_ok := true |}; {| h_msn := 2; h_ok := true |}; {| h_msn := 2; h_ok := true |};
           {| h_msn := 3; h_ok := false |}; {| h_msn := 3; h_ok := true |} ]) = [0; 1; 2; 3]%Z.
 Proof. reflexivity. Qed.
+
+(* ------------------------------------------------------------------ (c) the library's handshakes as flight systems *)
+Lemma flights_alternate ske m : alternating Client (map fst (flights ske m)) = true.
+Proof. destruct ske, m; reflexivity. Qed.
+
+Lemma nflights_values ske :
+  nflights ske HFull = 6 /\ nflights ske HClientAuth = 6 /\ nflights ske HResumed = 5.
+Proof. destruct ske; repeat split; reflexivity. Qed.
+
+Lemma last_sender_values ske :
+  last_sender ske HFull = Server /\ last_sender ske HClientAuth = Server /\ last_sender ske HResumed = Client.
+Proof. destruct ske; repeat split; reflexivity. Qed.
+
+(* liveness of the abstract flight system instantiated with each handshake of the library *)
+Lemma modes_complete ske m k blocks :
+  length blocks = nflights ske m -> Forall (block_fair (nflights ske m)) blocks ->
+  Forall (fun b => length b <= k) blocks ->
+  both_done (nflights ske m) (rounds (nflights ske m) 0 (concat blocks)) = true /\
+  length (concat blocks) <= k * nflights ske m.
+Proof. apply flights_complete. Qed.
+
